@@ -54,6 +54,7 @@ type recDebugger struct {
 	traces    map[uint64][]string
 	litVisits map[int]int // debugger visits of literal nodes per line
 	litEvals  map[int]int // evaluations of literal nodes per line (noted by c15LitRuntime)
+	watched   map[*parser.ASTNode]bool
 	off       bool        // life-cycle cases: the debugger is detached at the moment
 }
 
@@ -83,12 +84,25 @@ func (r *c15LitRuntime) Eval(vs parser.Scope, is map[string]interface{}, tid uin
 	return r.Runtime.Eval(vs, is, tid)
 }
 
+// c15WrapLiterals wraps the runtimes of the WATCHED nodes: literal nodes and every statement of a
+// statement list (children of a `statements` node with a token: assignments, calls, return / break /
+// continue, loops, …; nobody type-asserts these runtimes). For each of them an evaluation must be
+// announced to the debugger as a visit of that very node.
 func c15WrapLiterals(n *parser.ASTNode, rec *recDebugger) {
-	if c15IsLiteral(n) {
-		n.Runtime = &c15LitRuntime{n.Runtime, c15Pos(n), rec}
+	c15WrapWatched(n, rec, true)
+}
+
+func c15WrapWatched(n *parser.ASTNode, rec *recDebugger, isStatement bool) {
+	if n.Token != nil && (c15IsLiteral(n) || isStatement) && n.Name != parser.NodeSTATEMENTS {
+		if _, done := n.Runtime.(*c15LitRuntime); !done {
+			n.Runtime = &c15LitRuntime{n.Runtime, c15Pos(n), rec}
+			rec.mu.Lock()
+			rec.watched[n] = true
+			rec.mu.Unlock()
+		}
 	}
 	for _, c := range n.Children {
-		c15WrapLiterals(c, rec)
+		c15WrapWatched(c, rec, n.Name == parser.NodeSTATEMENTS)
 	}
 }
 
@@ -108,7 +122,7 @@ func (d *recDebugger) litAgree() bool {
 }
 
 func newRecDebugger(d util.ECALDebugger) *recDebugger {
-	return &recDebugger{ECALDebugger: d, traces: map[uint64][]string{}, litVisits: map[int]int{}, litEvals: map[int]int{}}
+	return &recDebugger{ECALDebugger: d, traces: map[uint64][]string{}, litVisits: map[int]int{}, litEvals: map[int]int{}, watched: map[*parser.ASTNode]bool{}}
 }
 
 func (d *recDebugger) note(tid uint64, s string) {
@@ -134,11 +148,11 @@ func c15Pos(node *parser.ASTNode) int {
 func (d *recDebugger) VisitState(node *parser.ASTNode, vs parser.Scope, tid uint64) util.TraceableRuntimeError {
 	if node.Token != nil {
 		d.note(tid, "v"+strconv.Itoa(c15Pos(node)))
-		if c15IsLiteral(node) {
-			d.mu.Lock()
+		d.mu.Lock()
+		if d.watched[node] {
 			d.litVisits[c15Pos(node)]++
-			d.mu.Unlock()
 		}
+		d.mu.Unlock()
 	}
 	return d.ECALDebugger.VisitState(node, vs, tid)
 }
@@ -1011,7 +1025,7 @@ func c15RunS(f []string, payload string) string {
 	}
 	CountRun("S")
 	r := fmt.Sprintf("same=%d susp=%d", same, total)
-	if f[3] != "-" {
+	if f[3] != "-" && workers != 1 {
 		r = fmt.Sprintf("same=%d susp=any", same)
 	}
 	if hang {
@@ -1636,6 +1650,13 @@ func init() {
 				{"x := event.state.n", "log(\"s\", x)"},
 				{"x := h(event.state.n)", "y := x + 1", "log(\"s\", y)"},
 				{"x := event.state.n", "if x > 2 {", "    x := h(x)", "}", "log(\"s\", x)"},
+			}
+			// a step command pending when an execution ends must not hide the break point from the
+			// worker's next execution (one worker: deterministic)
+			for _, sc := range []string{"I", "O,R,I", "U", "I,I"} {
+				bt := c15SinkBodyTrace(bodies[0])
+				g.Count("S.workers.1")
+				g.Emit(fmt.Sprintf("S 1 4 s7 %s %s %s", sc, c15TraceStr(bt), hx(c15SinkProgram(bodies[0], 4))))
 			}
 			for bi, body := range bodies {
 				bt := c15SinkBodyTrace(body)
